@@ -158,9 +158,10 @@ Definition fits (ds : list N) (e : Z) : bool :=
 
 Definition is_nil' {A} (l : list A) : bool := match l with [] => true | _ => false end.
 
-(* a number literal at the head of cs (first byte '-' or a digit): None = not a number of the grammar or not
-   finite as float64; Some (literal, rest) *)
-Definition pnum (cs : list N) : option (list N * list N) :=
+(* a number literal at the head of cs (first byte '-' or a digit): None = not a number of the grammar or (rc: the
+   decoder converts numbers to float64; rc = false: Decoder.UseNumber keeps the literal) not finite as float64;
+   Some (literal, rest) *)
+Definition pnum (rc : bool) (cs : list N) : option (list N * list N) :=
   let body := match cs with c :: r => if c =? 45 then r else cs | [] => cs end in
   let (ip, r1) := digits body in
   match ip with
@@ -178,7 +179,7 @@ Definition pnum (cs : list N) : option (list N * list N) :=
         let mant := (ip ++ fp)%list in
         let fl := Z.of_nat (List.length fp) in
         let fin (e : Z) (rest : list N) :=
-          if fits mant (e - fl) then Some (firstn (List.length cs - List.length rest) cs, rest) else None in
+          if negb rc || fits mant (e - fl) then Some (firstn (List.length cs - List.length rest) cs, rest) else None in
         match r2 with
         | c :: r' =>
             if (c =? 101) || (c =? 69) then
@@ -208,7 +209,7 @@ Fixpoint nodup_keys (m : list (string * jval)) : bool :=
 
 (* ---- values.  n is fuel: every nested call is made after at least one byte was consumed, so
         S (length input) is enough for every input. ---- *)
-Fixpoint pval (n : nat) (cs : list N) : option (jval * list N) :=
+Fixpoint pval (rc : bool) (n : nat) (cs : list N) : option (jval * list N) :=
   match n with
   | O => None
   | S n' =>
@@ -221,7 +222,7 @@ Fixpoint pval (n : nat) (cs : list N) : option (jval * list N) :=
         match skip_ws r with
         | c2 :: r2 =>
             if c2 =? 125 then Some (VObj [], r2)
-            else match pmembers n' r with
+            else match pmembers rc n' r with
                  | Some (ms, r') => if nodup_keys ms then Some (VObj ms, r') else None
                  | None => None
                  end
@@ -231,7 +232,7 @@ Fixpoint pval (n : nat) (cs : list N) : option (jval * list N) :=
         match skip_ws r with
         | c2 :: r2 =>
             if c2 =? 93 then Some (VArr [], r2)
-            else match pelems n' r with
+            else match pelems rc n' r with
                  | Some (vs, r') => Some (VArr vs, r')
                  | None => None
                  end
@@ -244,11 +245,11 @@ Fixpoint pval (n : nat) (cs : list N) : option (jval * list N) :=
       else if c =? 110 then
         match strip_prefix [117; 108; 108] r with Some r' => Some (VNull, r') | None => None end
       else if (c =? 45) || is_digit c then
-        match pnum (c :: r) with Some (l, r') => Some (VNum l, r') | None => None end
+        match pnum rc (c :: r) with Some (l, r') => Some (VNum l, r') | None => None end
       else None
     end
   end
-with pmembers (n : nat) (cs : list N) : option (list (string * jval) * list N) :=
+with pmembers (rc : bool) (n : nat) (cs : list N) : option (list (string * jval) * list N) :=
   match n with
   | O => None
   | S n' =>
@@ -263,14 +264,14 @@ with pmembers (n : nat) (cs : list N) : option (list (string * jval) * list N) :
           | [] => None
           | c1 :: r2 =>
             if c1 =? 58 then
-              match pval n' r2 with
+              match pval rc n' r2 with
               | None => None
               | Some (v, r3) =>
                 match skip_ws r3 with
                 | [] => None
                 | c3 :: r4 =>
                   if c3 =? 44 then
-                    match pmembers n' r4 with
+                    match pmembers rc n' r4 with
                     | Some (ms, r5) => Some ((str_of k, v) :: ms, r5)
                     | None => None
                     end
@@ -284,18 +285,18 @@ with pmembers (n : nat) (cs : list N) : option (list (string * jval) * list N) :
       else None
     end
   end
-with pelems (n : nat) (cs : list N) : option (list jval * list N) :=
+with pelems (rc : bool) (n : nat) (cs : list N) : option (list jval * list N) :=
   match n with
   | O => None
   | S n' =>
-    match pval n' cs with
+    match pval rc n' cs with
     | None => None
     | Some (v, r1) =>
       match skip_ws r1 with
       | [] => None
       | c :: r2 =>
         if c =? 44 then
-          match pelems n' r2 with Some (vs, r3) => Some (v :: vs, r3) | None => None end
+          match pelems rc n' r2 with Some (vs, r3) => Some (v :: vs, r3) | None => None end
         else if c =? 93 then Some ([v], r2)
         else None
       end
@@ -304,9 +305,20 @@ with pelems (n : nat) (cs : list N) : option (list jval * list N) :=
 
 (* json.Unmarshal of a whole input: one value, then only white space *)
 Definition parse_json (bs : list N) : option jval :=
-  match pval (S (S (List.length bs))) bs with
+  match pval true (S (S (List.length bs))) bs with
   | Some (v, r) => match skip_ws r with [] => Some v | _ => None end
   | None => None
+  end.
+
+(* jwt.PayloadToMap on the payload bytes (claims decoding of jwt.Parse): the same fork's STREAM decoder with
+   UseNumber reads ONE value: numbers keep their literal (no float64 range), what follows the value is not looked at
+   when the value is an object (its closing brace ends it), duplicate member names are rejected, the value must be
+   an object or null (null, followed by nothing or by white space, gives a nil map without error). *)
+Definition claims_obj (bs : list N) : bool :=
+  match pval false (S (S (List.length bs))) bs with
+  | Some (VObj _, _) => true
+  | Some (VNull, r) => match r with [] => true | c :: _ => is_ws c end
+  | _ => false
   end.
 
 (* ---- what the callers read: exact member names, Go type assertions ---- *)
